@@ -280,6 +280,10 @@ class SymInterp:
                 return a / b
             if isinstance(e.op, ast.FloorDiv):
                 return a // b
+            if isinstance(e.op, ast.Mod):
+                return a % b
+            if isinstance(e.op, ast.Pow) and isinstance(a, (int, float)) and isinstance(b, int):
+                return a ** b
             if isinstance(e.op, ast.MatMult) and (isinstance(a, Blob) or isinstance(b, Blob)):
                 return Blob("matmul")
             raise AnalysisError(f"operator in {unparse(e)} outside the fragment")
